@@ -37,9 +37,9 @@ func main() {
 		}
 	}
 	r := gen.NewRand(f.Seed)
-	unitCases(r.Fork(), f.N(12, 400), f.N(6, 12))
-	sortCases(r.Fork(), f.N(400, 20000))
-	nDirs := f.N(5, 120)
+	unitCases(r.Fork(), f.N(12, 120), f.N(6, 8))
+	sortCases(r.Fork(), f.N(400, 8000))
+	nDirs := f.N(4, 40)
 	for i := 0; i < nDirs; i++ {
 		genE2E(r.Fork(), f.N(6, 15), 5)
 	}
